@@ -487,6 +487,15 @@ def resize_func(e):
     return e.prog.funcs[qs.pop()]
 
 
+def _parents(e, x):
+    out = []
+    p_ = e.prog.parent.get(id(x))
+    while p_ is not None and not isinstance(p_, (ast.FunctionDef, ast.AsyncFunctionDef)):
+        out.append(p_)
+        p_ = e.prog.parent.get(id(p_))
+    return out
+
+
 def r_resize(e, R):
     a = e.anchors
     f = resize_func(e)
@@ -519,6 +528,11 @@ def r_resize(e, R):
                 cf = e.prog.funcs[q]
                 if any(isinstance(x, ast.While) and e.objs(cf, x.test) & a.pending for x in func_nodes(cf)):
                     waitj.add(n)
+    # (the same wait written in place: a loop in this function whose guard reads the pending table)
+    for n in g.nodes:
+        if n.kind == "test" and n.ast is not None and e.objs(f, n.ast) & a.pending and any(
+                isinstance(x, ast.While) and any(y is n.ast for y in ast.walk(x.test)) for x in func_nodes(f)):
+            waitj.add(n)
     R.check(bool(posts) and bool(waitj) and all(any(g.dominates(w, p) for w in waitj) for p in posts), "R-RESIZE",
             f"{f.short}: waits for the submitted jobs before posting sentinels", f.short, "_wait_job_completion()",
             "sentinels are posted while jobs are still queued: a worker can take its sentinel before a queued task, or tasks are stranded", e.loc(f, f.node))
@@ -550,6 +564,19 @@ def r_resize(e, R):
             hi_def = inline_locals(e, f, hi)
             alive = isinstance(hi_def, ast.Call) and isinstance(hi_def.func, ast.Name) and hi_def.func.id == "sum" and \
                 any(isinstance(x, ast.Attribute) and x.attr == "is_alive" for x in ast.walk(hi_def))
+            if not alive and isinstance(hi, ast.Name):
+                # the same count as an explicit loop: `n = 0; for p in <workers>: if p.is_alive(): n += 1` (or `n += p.is_alive()`)
+                zero = any(isinstance(d, ast.Constant) and d.value == 0 for d in e.local_defs(f, hi.id))
+                steps = [x for x in func_nodes(f) if isinstance(x, ast.AugAssign) and isinstance(x.target, ast.Name) and x.target.id == hi.id and isinstance(x.op, ast.Add)]
+                def counts_alive(x):
+                    if any(isinstance(y, ast.Attribute) and y.attr == "is_alive" for y in ast.walk(x.value)):
+                        return True
+                    pp_ = e.prog.parent.get(id(x))
+                    return isinstance(x.value, ast.Constant) and x.value.value == 1 and isinstance(pp_, ast.If) and not pp_.orelse and \
+                        any(isinstance(y, ast.Attribute) and y.attr == "is_alive" for y in ast.walk(pp_.test))
+                in_loop = lambda x: any(isinstance(p_, ast.For) for p_ in _parents(e, x))
+                alive = zero and len(steps) == 1 and counts_alive(steps[0]) and in_loop(steps[0]) and \
+                    len([d for d in e.local_defs(f, hi.id)]) == 1
             okc = isinstance(lo, ast.Name) and lo.id == tgt and alive
         R.check(okc, "R-RESIZE", f"{f.short}: exactly (alive workers - target) sentinels are posted", f.short,
                 norm(loop.iter) if loop is not None else norm(p.ast), "the number of sentinels is not alive - target: too many workers leave (survivors "
